@@ -328,6 +328,8 @@ def rule6_reuse(ctx, v):
 def run(ctx):
     for fl in flavours(ctx):
         ctx.unit = fl
+        ctx.doc('C10.7', 'native API forwarding: each public entry point of this property reaches the implementation of the same name with its parameters in order and returns its result (sibling slips such as trylock -> lock, signal -> broadcast, swapped arguments)')
+        lib.native_forwarding(ctx, 'C10.7', fl, lambda n: n in ('myth_key_create', 'myth_key_delete', 'myth_setspecific', 'myth_getspecific'), floor=6)
         v = ctx.view(NATIVE, roots=['myth_tls_tree_get', 'myth_tls_tree_set', 'myth_tls_key_allocator_alloc',
                                     'myth_tls_key_allocator_dealloc', 'myth_tls_tree_node_alloc_leaf', 'myth_tls_tree_node_alloc_node'],
                      stops=('myth_tls_tree_node_alloc', 'myth_malloc') + lib.SPIN_STOPS, flavour=fl)
@@ -341,6 +343,8 @@ def run(ctx):
 
 TLS = 'src/myth_tls_func.h'
 MUTANTS = [
+    {'name': 'native myth_setspecific forwards a NULL value', 'expect': 'C10.7',
+     'edits': [('src/myth_if_native.c', "  return myth_setspecific_body(key, pointer);", "  return myth_setspecific_body(key, 0);")]},
     {'name': 'tree_set allocates an internal node for the leaf level (sweep M0599)', 'expect': 'C10.2',
      'edits': [(TLS, "      if (i < myth_tls_tree_depth - 1) {\n\tc = myth_tls_tree_node_alloc_node(t);", "      if (!(i < myth_tls_tree_depth - 1)) {\n\tc = myth_tls_tree_node_alloc_node(t);")]},
     {'name': 'set accepts idx == n_keys', 'expect': 'C10.1',
